@@ -434,7 +434,13 @@ TEXT = {
           "model (a popped version answers like an unknown one), and real nodes (a producer rolling back and three competing "
           "branches, followers fed by gossip and sync, readers inside every momentum notification before and after the pool) "
           "are checked after every operation: pool = ledger frontier extended by the pooled chain, GetPatch answers exactly "
-          "for the pooled chain, every valid delivery is adopted.",
+          "for the pooled chain, every valid delivery is adopted. The WHOLE pool (any number of addresses, transactions with "
+          "several commits: a contract receive with its descendant sends) is a second model (Props/C14Multi.lean) with the "
+          "same clauses for all operation sequences - one chain per address, confirmed never displaced, transactions in the "
+          "pool entirely or not at all, addresses independent and rebuilt in any order, after a momentum exactly the "
+          "unconfirmed transactions that still link - replayed against a real pool by the pool-multi stream; the winner clause "
+          "for transactions with descendants is false of the code (known finding FDF1: negative witnesses, partial theorem for "
+          "the code as it is, full theorem for the repaired rule).",
   "design_ref": "§3 C14",
   "note": "Data-race freedom and reader atomicity are runtime properties (not theorems); readers are interposed at the "
           "listener boundaries of momentum insert/delete. The pool state machine is a "
